@@ -1016,6 +1016,9 @@ func (e *Exec) builtinAppend(fr *Frame, st *State, args []Val, cc *ssa.CallCommo
 	e.sc.assume(st.reach, fmt.Sprintf("(forall ((%s Int)) (! (=> (and (<= %s %s) (< %s (+ %s %s))) (= (select %s %s) %s)) :pattern ((select %s %s))))", q, base2, q, q, base2, n, R, q, tAt(fmt.Sprintf("(- %s %s)", q, base2)), R, q))
 	e.sc.assume(st.reach, fmt.Sprintf("(=> %s (forall ((%s Int)) (! (=> (or (< %s (+ (s_off %s) (s_len %s))) (>= %s (+ (s_off %s) %s))) (= (select %s %s) (select %s %s))) :pattern ((select %s %s)))))", fits, q, q, s.T, s.T, q, s.T, newLen, R, q, sOld, q, R, q))
 	e.hset(st, m, sto(h, rArr, R))
+	if isIntElem(el) {
+		e.sumAppend(st, sOld, s.T, R, rOff, n)
+	}
 	res := e.sc.freshName("app.res")
 	// appending nothing to a nil slice yields nil
 	e.sc.define(res, "Slice", ite(fmt.Sprintf("(and (= (s_arr %s) 0) (= %s 0))", s.T, n), "nil_slice", fmt.Sprintf("(mk_slice %s %s %s %s)", rArr, rOff, newLen, ite(fits, "(s_cap "+s.T+")", newCap))))
